@@ -88,6 +88,16 @@ def check(run, case):
             run.violation('add-raised:%s' % k, case, '%s(%r) raised %r' % (ADD[k], v, e))
             return False
         ref += P.layout(k, v, bo, wo)
+        if case.get('twin'):
+            # a second builder (other orders) is filled at the same time: builders do not share anything
+            try:
+                if n_added == 0:
+                    twin = BinaryPayloadBuilder(byteorder=ORD['little' if bo == 'big' else 'big'], wordorder=ORD['little' if wo == 'big' else 'big'])
+                kk, vv = vals[len(vals) - 1 - n_added]
+                getattr(twin, ADD[kk])(vv)
+                twin.to_string()
+            except Exception:  # noqa
+                pass
         if case.get('peek') and n_added % 2 == 0:
             # looking at the payload so far (bytes, registers, coils) is a read: it must not change what is built afterwards
             try:
@@ -168,6 +178,8 @@ def run(run):
                     case['reuse'] = True
                 if i % 5 == 1 and len(items) > 1:
                     case['peek'] = True
+                if i % 5 == 4 and len(items) > 1:
+                    case['twin'] = True
                 res = check(run, case)
                 for k, _ in items:
                     run.count('kind:%s:%s/%s' % (k, bo, wo))
